@@ -55,7 +55,7 @@ def main():
     violations = 0
     if unknown:
         violations = len(unknown)
-        path = core.write_replay(pid, {'property': pid, 'kind': 'failing-input', 'seed': seed, 'tier': tier,
+        path = core.write_replay(pid, {'property': pid, 'kind': 'failing-input', 'seed': seed, 'tier': tier, 'scale': scale,
                                        'broken_obligations': ctx.obligation_failures,
                                        'failures': unknown[:5], 'total_failures': len(unknown)})
         for f in unknown[:5]:
@@ -118,11 +118,27 @@ def replay(ctx, mod, payload, path):
             print(f'[{pid}] replay: still broken: {f["what"]} :: {f["detail"][:400]}')
         print(f'VIOLATION property={pid} replay={path} no-failing-input-found')
         return 1
+    # re-run the implementation on the current tree with the recorded seed / tier / scale (generators are deterministic in the
+    # seed) and report whether the recorded failing inputs fail again; then the per-case replays on the recorded values
+    import importlib
+    ctx2 = core.Ctx(pid, payload.get('tier', 'quick'), int(payload.get('seed', ctx.seed)))
+    try:
+        res = mod.correspond(ctx2, int(payload.get('scale', 1)))
+        now = {}
+        for f in res['failures']:
+            if not core.match_known(pid, f['key']):
+                now.setdefault(f['key'], f)
+    except Exception as ex:
+        now = {'harness-exception': {'what': repr(ex)}}
     bad = 0
     for f in payload['failures']:
-        still, msg = mod.replay_case(ctx, f['case'])
-        print(f'[{pid}] replay {f["key"]}: {"STILL FAILS" if still else "passes"}: {msg[:500]}')
-        bad += bool(still)
+        again = f['key'] in now
+        print(f'[{pid}] replay {f["key"]}: ' + ('STILL FAILS on the current tree: ' + now[f["key"]]["what"][:300] if again else 'does not fail on the current tree (same seed, same generator)'))
+        bad += again
+    other = [k for k in now if k not in {f['key'] for f in payload['failures']}]
+    if other and not bad:
+        print(f'[{pid}] replay: the recorded inputs pass, but the same run shows other failures: {other[:3]}')
+        bad += 1
     if bad:
         print(f'VIOLATION property={pid} replay={path}')
     return 1 if bad else 0
